@@ -1,19 +1,1189 @@
-//! Engine `pager` — not built yet (stub).
+//! Engine `pager` (C11) — judge mode.
+//!
+//! Two case kinds (and one regression probe); `exec` returns an *observation* of the real code, the Lean driver judges it.
+//!
+//! 1. Allocator sequences on a raw pager (`Pager::allocate_page` / `dealloc_page` through `axmosdb::verif::pager::VPager`):
+//!      seq <pagesize> <cache> | op ; op ; …
+//!        a        allocate_page::<BtreePage>()          o        allocate_page::<OverflowPage>()
+//!        d <p>    dealloc_page::<BtreePage>(p)          x <p>    dealloc_page::<OverflowPage>(p)
+//!        l <p> <q>  set `next` of overflow page p to q (0 = None), as CellBuilder::build_cell does
+//!        f        Pager::flush                           r        flush, drop the pager, Pager::open
+//!    A case in which `d`/`x`/`l` names a page id >= total_pages (at that moment) is malformed (`bad-op`).
+//!    Observation: `obs <res> h=<first>:<last>:<total> w=<free walk p1+p2…|-> ; …` one entry per op;
+//!      res = p<id> | ok | E<io::ErrorKind>; the walk follows `next` from first_free_page for at most total_pages steps.
+//!    The judge recomputes every entry with the Lean allocator model.
+//!
+//! 2. SQL histories on a real `Database` in a scratch directory:
+//!      sql <pagesize> <cache> | op ; op ; …
+//!        ct <t> | dt <t> | dtc <t> (DROP TABLE … CASCADE) | ci <i> <t> <col> | di <i> (DROP INDEX: does not parse today)
+//!        ins <t> <id> <len> | upd <t> <id> <len> | del <t> <id> | delr <t> <lo> <hi>
+//!        sK:begin | sK:<dml or ddl op> | sK:commit | sK:rollback
+//!        vac | flush | reopen
+//!      tables are (id BIGINT, k BIGINT, v TEXT): k = id * 7 + 1 (unique), v = text(len, id)
+//!    After **every** op the whole file is dumped (`verif::btree::dump_file` from the roots of all trees of the catalog).
+//!    Observation: `obs <step> ; <step> ; …`, step = `r=<ok|E<class>|P<file:line>> T=<total> F=<first>:<last> R=<root,…> <page token>*`
+//!      page tokens (only those that changed since the previous step):
+//!        L<id>:<prev>:<next>:<slot>@<p1+p2…>,…                 leaf; only cells with an overflow chain are listed
+//!        I<id>:<prev>:<next>:<right>:<left>[@<p1+p2…>],…       interior; every cell (= divider) with its left child
+//!        O<id>:<next>                                           overflow-shaped page (chain link or free page)
+//!        B<id>                                                  unreadable / malformed
+//!      R lists the roots: meta table, meta index, and the root named by every physical row of the meta table (a dropped
+//!      relation keeps its tree until VACUUM removes its row); a root is followed by `c` if the row's creator was rolled back
+//!      and by `d` if its deleter was.
+//!      X=<n> (only when n > 0): number of dividers that carry an overflow pointer.
+//!      N=<root,…>: the roots of the trees with numeric keys; K<id>:<k1>,<k2>,… the keys of all cells of page <id> of such a tree
+//!      (`K<id>:!` = the page has no numeric keys any more): the judge also runs C10's `checkTree` on these trees.
+//!    The judge runs `checkOwnership` on every step and the reuse-before-growth rule on consecutive steps.
+//!
+//! 3. `iter <pagesize>`: a leaf in the middle of a tree is freed behind the tree's back and the tree is iterated;
+//!    observation `obs oks=<n> then=<a>,<b>,<c>` = positions before the first error and what the next three `next()` calls
+//!    return. Admissible iff the iterator ends after the error (`then=none,none,none`).
 use super::{Case, Engine, Tier};
 use crate::rng::Rng;
+use axmosdb::verif::btree::{DumpCache, FileDump, KeyKind, PageBody, dump_file_cached};
+use axmosdb::verif::pager::{PKind, VPager, database_roots, iterator_after_error};
+use axmosdb::{DBConfig, Database};
+use std::collections::{BTreeMap, VecDeque};
+use std::sync::atomic::{AtomicU64, Ordering as AtomicOrdering};
 
 pub struct PagerEngine;
 
-impl Engine for PagerEngine {
-    fn gen_cases(&self, _rng: &mut Rng, _tier: Tier) -> Vec<Case> {
-        Vec::new()
+pub fn generated() -> Option<(&'static str, String)> {
+    None
+}
+
+static COUNTER: AtomicU64 = AtomicU64::new(0);
+
+struct Scratch(std::path::PathBuf);
+impl Scratch {
+    fn new() -> Scratch {
+        let n = COUNTER.fetch_add(1, AtomicOrdering::Relaxed);
+        if n == 0 {
+            // children that were killed (hang) or aborted could not remove their directory: sweep those of dead processes
+            if let Ok(rd) = std::fs::read_dir(std::env::temp_dir()) {
+                for e in rd.flatten() {
+                    let name = e.file_name().to_string_lossy().to_string();
+                    if let Some(rest) = name.strip_prefix("axh-pager-") {
+                        let pid = rest.split('-').next().unwrap_or("");
+                        if !pid.is_empty() && !std::path::Path::new("/proc").join(pid).exists() {
+                            let _ = std::fs::remove_dir_all(e.path());
+                        }
+                    }
+                }
+            }
+        }
+        let d = std::env::temp_dir().join(format!("axh-pager-{}-{}", std::process::id(), n));
+        let _ = std::fs::remove_dir_all(&d);
+        std::fs::create_dir_all(&d).expect("scratch dir");
+        Scratch(d)
     }
-    fn exec(&mut self, _line: &str) -> String {
-        "unimplemented".into()
+}
+impl Drop for Scratch {
+    fn drop(&mut self) {
+        let _ = std::fs::remove_dir_all(&self.0);
     }
 }
 
-/// Content of `lean/AxVerif/Generated/<Engine>.lean`, if this engine extracts constants from the code.
-pub fn generated() -> Option<(&'static str, String)> {
-    None
+/// The real code prints debugging lines to stdout (`println!` in runtime/ddl.rs); stdout carries the line protocol, so fd 1
+/// points at /dev/null while a case runs and is restored before the answer is written.
+struct QuietStdout(i32);
+impl QuietStdout {
+    fn new() -> QuietStdout {
+        use std::io::Write;
+        let _ = std::io::stdout().flush();
+        unsafe {
+            let saved = libc::dup(1);
+            let null = libc::open(c"/dev/null".as_ptr(), libc::O_WRONLY);
+            if saved >= 0 && null >= 0 {
+                libc::dup2(null, 1);
+            }
+            if null >= 0 {
+                libc::close(null);
+            }
+            QuietStdout(saved)
+        }
+    }
+}
+impl Drop for QuietStdout {
+    fn drop(&mut self) {
+        use std::io::Write;
+        let _ = std::io::stdout().flush();
+        if self.0 >= 0 {
+            unsafe {
+                libc::dup2(self.0, 1);
+                libc::close(self.0);
+            }
+        }
+    }
+}
+
+/// Panics of the database's worker threads do not unwind into `exec`; a chained panic hook records where the first one
+/// happened (file:line below src/), so that the step can report `r=P<file:line>` and the history stops there (a dead
+/// worker pool would make every later statement wait forever).
+static WORKER_PANIC: std::sync::Mutex<Option<String>> = std::sync::Mutex::new(None);
+static HOOK: std::sync::Once = std::sync::Once::new();
+
+fn install_worker_hook() {
+    HOOK.call_once(|| {
+        let prev = std::panic::take_hook();
+        std::panic::set_hook(Box::new(move |info| {
+            let loc = info
+                .location()
+                .map(|l| {
+                    let f = l.file();
+                    let f = f.rsplit_once("/src/").map(|x| x.1).unwrap_or(f);
+                    format!("{}:{}", f, l.line())
+                })
+                .unwrap_or_else(|| "?".into());
+            if let Ok(mut g) = WORKER_PANIC.lock() {
+                if g.is_none() {
+                    *g = Some(loc);
+                }
+            }
+            prev(info);
+        }));
+    });
+}
+
+fn take_worker_panic() -> Option<String> {
+    WORKER_PANIC.lock().ok().and_then(|mut g| g.take())
+}
+
+fn guard<T>(f: impl FnOnce() -> Result<T, String>) -> Result<T, String> {
+    crate::LAST_PANIC.with(|p| *p.borrow_mut() = None);
+    match std::panic::catch_unwind(std::panic::AssertUnwindSafe(f)) {
+        Ok(r) => r,
+        Err(_) => {
+            let loc = crate::LAST_PANIC.with(|p| p.borrow_mut().take()).unwrap_or_else(|| "?".into());
+            Err(format!("PANIC@{}", loc))
+        }
+    }
+}
+
+fn parse_params(head: &str, kind: &str) -> Option<(usize, usize)> {
+    let w: Vec<&str> = head.split(' ').collect();
+    if w.len() != 3 || w[0] != kind {
+        return None;
+    }
+    let ps: usize = w[1].parse().ok()?;
+    let cache: usize = w[2].parse().ok()?;
+    if !(ps == 4096 || ps == 8192) || !(8..=20000).contains(&cache) {
+        return None;
+    }
+    Some((ps, cache))
+}
+
+// ------------------------------------------------------------------------------------------------ allocator sequences
+
+#[derive(Clone, Debug, PartialEq)]
+enum SOp {
+    Alloc(bool),
+    Dealloc(u64, bool),
+    Link(u64, u64),
+    Flush,
+    Reopen,
+}
+
+fn parse_sop(s: &str) -> Option<SOp> {
+    let w: Vec<&str> = s.split(' ').collect();
+    let num = |x: &str| -> Option<u64> {
+        if x.len() > 7 || x.is_empty() || !x.bytes().all(|b| b.is_ascii_digit()) { None } else { x.parse().ok() }
+    };
+    Some(match w.as_slice() {
+        ["a"] => SOp::Alloc(false),
+        ["o"] => SOp::Alloc(true),
+        ["d", p] => SOp::Dealloc(num(p)?, false),
+        ["x", p] => SOp::Dealloc(num(p)?, true),
+        ["l", p, q] => SOp::Link(num(p)?, num(q)?),
+        ["f"] => SOp::Flush,
+        ["r"] => SOp::Reopen,
+        _ => return None,
+    })
+}
+
+fn show_sop(op: &SOp) -> String {
+    match op {
+        SOp::Alloc(false) => "a".into(),
+        SOp::Alloc(true) => "o".into(),
+        SOp::Dealloc(p, false) => format!("d {}", p),
+        SOp::Dealloc(p, true) => format!("x {}", p),
+        SOp::Link(p, q) => format!("l {} {}", p, q),
+        SOp::Flush => "f".into(),
+        SOp::Reopen => "r".into(),
+    }
+}
+
+/// the free list as a reader finds it: follow `next` from `first` for at most `total` steps
+fn walk_of(d: &FileDump) -> Vec<u64> {
+    let mut out = Vec::new();
+    let mut cur = d.first_free.unwrap_or(0);
+    while cur != 0 && (out.len() as u64) < d.total_pages {
+        out.push(cur);
+        let Some(pg) = d.pages.iter().find(|p| p.id == cur) else { break };
+        match &pg.body {
+            PageBody::Overflow(o) => cur = o.next.unwrap_or(0),
+            _ => break,
+        }
+    }
+    out
+}
+
+fn join_ids(v: &[u64]) -> String {
+    if v.is_empty() { "-".into() } else { v.iter().map(|x| x.to_string()).collect::<Vec<_>>().join("+") }
+}
+
+fn exec_seq(line: &str) -> String {
+    let Some((head, body)) = line.split_once(" | ") else { return "bad-op".into() };
+    let Some((ps, cache)) = parse_params(head, "seq") else { return "bad-op".into() };
+    let mut ops = Vec::new();
+    for part in body.split(" ; ") {
+        match parse_sop(part) {
+            Some(o) => ops.push(o),
+            None => return "bad-op".into(),
+        }
+    }
+    if ops.is_empty() || ops.len() > 2000 {
+        return "bad-op".into();
+    }
+    let scratch = Scratch::new();
+    let Ok(mut vp) = VPager::create(&scratch.0, ps, cache) else { return "create-failed".into() };
+    let mut parts = Vec::new();
+    for op in &ops {
+        let total = vp.header().total;
+        let res: Result<String, String> = match op {
+            SOp::Alloc(k) => guard(|| vp.alloc(if *k { PKind::Overflow } else { PKind::Btree })).map(|p| format!("p{}", p)),
+            SOp::Dealloc(p, k) => {
+                if *p >= total {
+                    return "bad-op".into();
+                }
+                guard(|| vp.dealloc(*p, if *k { PKind::Overflow } else { PKind::Btree })).map(|_| "ok".into())
+            }
+            SOp::Link(p, q) => {
+                if *p >= total || *q >= total {
+                    return "bad-op".into();
+                }
+                guard(|| vp.link(*p, if *q == 0 { None } else { Some(*q) })).map(|_| "ok".into())
+            }
+            SOp::Flush => guard(|| vp.flush()).map(|_| "ok".into()),
+            SOp::Reopen => guard(|| vp.reopen()).map(|_| "ok".into()),
+        };
+        let r = match res {
+            Ok(s) => s,
+            Err(e) => format!("E{}", e),
+        };
+        let h = vp.header();
+        let d = vp.dump();
+        parts.push(format!("{} h={}:{}:{} w={}", r, h.first, h.last, h.total, join_ids(&walk_of(&d))));
+        if r.starts_with("EPANIC") {
+            break;
+        }
+    }
+    format!("obs {}", parts.join(" ; "))
+}
+
+// ------------------------------------------------------------------------------------------------ SQL histories
+
+#[derive(Clone, Debug, PartialEq)]
+enum Stmt {
+    CreateTable(String),
+    DropTable(String),
+    DropTableCascade(String),
+    CreateIndex(String, String, String),
+    DropIndex(String),
+    Insert(String, u64, usize),
+    Update(String, u64, usize),
+    Delete(String, u64),
+    DeleteRange(String, u64, u64),
+}
+
+#[derive(Clone, Debug, PartialEq)]
+enum QOp {
+    Auto(Stmt),
+    SBegin(u32),
+    SStmt(u32, Stmt),
+    SCommit(u32),
+    SRollback(u32),
+    Vacuum,
+    Flush,
+    Reopen,
+}
+
+fn ident_ok(s: &str, pfx: char) -> bool {
+    let mut cs = s.chars();
+    cs.next() == Some(pfx) && s.len() >= 2 && s.len() <= 4 && cs.all(|c| c.is_ascii_digit())
+}
+
+/// text(len, id): lower-case letters depending on position and id
+fn text_of(len: usize, id: u64) -> String {
+    (0..len).map(|i| (b'a' + ((i as u64 * 7 + id * 3 + (i as u64 / 26)) % 26) as u8) as char).collect()
+}
+
+impl Stmt {
+    fn parse(w: &[&str]) -> Option<Stmt> {
+        let num = |x: &str| -> Option<u64> {
+            if x.len() > 7 || x.is_empty() || !x.bytes().all(|b| b.is_ascii_digit()) { None } else { x.parse().ok() }
+        };
+        Some(match w {
+            ["ct", t] if ident_ok(t, 't') => Stmt::CreateTable(t.to_string()),
+            ["dt", t] if ident_ok(t, 't') => Stmt::DropTable(t.to_string()),
+            ["dtc", t] if ident_ok(t, 't') => Stmt::DropTableCascade(t.to_string()),
+            ["ci", i, t, c] if ident_ok(i, 'i') && ident_ok(t, 't') && (*c == "k" || *c == "v" || *c == "id") => {
+                Stmt::CreateIndex(i.to_string(), t.to_string(), c.to_string())
+            }
+            ["di", i] if ident_ok(i, 'i') => Stmt::DropIndex(i.to_string()),
+            ["ins", t, id, len] if ident_ok(t, 't') => Stmt::Insert(t.to_string(), num(id)?, num(len).filter(|n| *n <= 60_000)? as usize),
+            ["upd", t, id, len] if ident_ok(t, 't') => Stmt::Update(t.to_string(), num(id)?, num(len).filter(|n| *n <= 60_000)? as usize),
+            ["del", t, id] if ident_ok(t, 't') => Stmt::Delete(t.to_string(), num(id)?),
+            ["delr", t, lo, hi] if ident_ok(t, 't') => Stmt::DeleteRange(t.to_string(), num(lo)?, num(hi)?),
+            _ => return None,
+        })
+    }
+    fn show(&self) -> String {
+        match self {
+            Stmt::CreateTable(t) => format!("ct {}", t),
+            Stmt::DropTable(t) => format!("dt {}", t),
+            Stmt::DropTableCascade(t) => format!("dtc {}", t),
+            Stmt::CreateIndex(i, t, c) => format!("ci {} {} {}", i, t, c),
+            Stmt::DropIndex(i) => format!("di {}", i),
+            Stmt::Insert(t, id, len) => format!("ins {} {} {}", t, id, len),
+            Stmt::Update(t, id, len) => format!("upd {} {} {}", t, id, len),
+            Stmt::Delete(t, id) => format!("del {} {}", t, id),
+            Stmt::DeleteRange(t, lo, hi) => format!("delr {} {} {}", t, lo, hi),
+        }
+    }
+    fn sql(&self) -> String {
+        match self {
+            Stmt::CreateTable(t) => format!("CREATE TABLE {} (id BIGINT, k BIGINT, v TEXT)", t),
+            Stmt::DropTable(t) => format!("DROP TABLE {}", t),
+            Stmt::DropTableCascade(t) => format!("DROP TABLE {} CASCADE", t),
+            Stmt::CreateIndex(i, t, c) => format!("CREATE UNIQUE INDEX {} ON {}({})", i, t, c),
+            Stmt::DropIndex(i) => format!("DROP INDEX {}", i),
+            Stmt::Insert(t, id, len) => format!("INSERT INTO {} VALUES ({}, {}, '{}')", t, id, id * 7 + 1, text_of(*len, *id)),
+            Stmt::Update(t, id, len) => format!("UPDATE {} SET v = '{}' WHERE id = {}", t, text_of(*len, *id + 1), id),
+            Stmt::Delete(t, id) => format!("DELETE FROM {} WHERE id = {}", t, id),
+            Stmt::DeleteRange(t, lo, hi) => format!("DELETE FROM {} WHERE id >= {} AND id < {}", t, lo, hi),
+        }
+    }
+}
+
+fn parse_qop(s: &str) -> Option<QOp> {
+    let w: Vec<&str> = s.split(' ').collect();
+    if w.is_empty() {
+        return None;
+    }
+    match w.as_slice() {
+        ["vac"] => return Some(QOp::Vacuum),
+        ["flush"] => return Some(QOp::Flush),
+        ["reopen"] => return Some(QOp::Reopen),
+        _ => {}
+    }
+    if let Some((sess, first)) = w[0].split_once(':') {
+        let k: u32 = sess.strip_prefix('s').filter(|x| x.len() == 1)?.parse().ok()?;
+        return Some(match (first, w.len()) {
+            ("begin", 1) => QOp::SBegin(k),
+            ("commit", 1) => QOp::SCommit(k),
+            ("rollback", 1) => QOp::SRollback(k),
+            _ => {
+                let mut w2 = vec![first];
+                w2.extend_from_slice(&w[1..]);
+                QOp::SStmt(k, Stmt::parse(&w2)?)
+            }
+        });
+    }
+    Some(QOp::Auto(Stmt::parse(&w)?))
+}
+
+fn show_qop(op: &QOp) -> String {
+    match op {
+        QOp::Auto(s) => s.show(),
+        QOp::SBegin(k) => format!("s{}:begin", k),
+        QOp::SStmt(k, s) => format!("s{}:{}", k, s.show()),
+        QOp::SCommit(k) => format!("s{}:commit", k),
+        QOp::SRollback(k) => format!("s{}:rollback", k),
+        QOp::Vacuum => "vac".into(),
+        QOp::Flush => "flush".into(),
+        QOp::Reopen => "reopen".into(),
+    }
+}
+
+fn db_err_class(e: &axmosdb::DatabaseError) -> &'static str {
+    use axmosdb::DatabaseError::*;
+    match e {
+        Io(_) => "io",
+        Query(_) => "query",
+        Task(_) => "task",
+        AlreadyExists(_) => "exists",
+        NotFound(_) => "notfound",
+        RecoveryFailed(_) => "recovery",
+        Runtime(_) => "runtime",
+        TransactionManagement(_) => "txn",
+        Other(_) => "other",
+    }
+}
+
+fn id0(x: Option<u64>) -> u64 {
+    x.unwrap_or(0)
+}
+
+fn chain_str(c: &axmosdb::verif::btree::CellDump) -> String {
+    format!(
+        "@{}{}",
+        c.overflow_chain.iter().map(|x| x.to_string()).collect::<Vec<_>>().join("+"),
+        if c.chain_ok { "" } else { "!" }
+    )
+}
+
+fn page_tokens(d: &FileDump) -> BTreeMap<u64, String> {
+    let mut out = BTreeMap::new();
+    for p in &d.pages {
+        let tok = match &p.body {
+            PageBody::Unreadable(_) => format!("B{}", p.id),
+            PageBody::Overflow(o) => format!("O{}:{}", p.id, id0(o.next)),
+            PageBody::Btree(b) => {
+                if !b.well_formed || b.self_id != p.id {
+                    format!("B{}", p.id)
+                } else if b.right_child.is_none() {
+                    let cells: Vec<String> = b
+                        .cells
+                        .iter()
+                        .enumerate()
+                        .filter(|(_, c)| c.is_overflow)
+                        .map(|(i, c)| format!("{}{}", i, chain_str(c)))
+                        .collect();
+                    format!("L{}:{}:{}:{}", p.id, id0(b.prev), id0(b.next), cells.join(","))
+                } else {
+                    let cells: Vec<String> = b
+                        .cells
+                        .iter()
+                        .map(|c| format!("{}{}", id0(c.left_child), if c.is_overflow { chain_str(c) } else { String::new() }))
+                        .collect();
+                    format!("I{}:{}:{}:{}:{}", p.id, id0(b.prev), id0(b.next), id0(b.right_child), cells.join(","))
+                }
+            }
+        };
+        out.insert(p.id, tok);
+    }
+    out
+}
+
+/// `K<id>:<k1>,<k2>,…`: the keys of all cells of B-tree page `id` in slot order, for pages whose keys are numeric (row ids of
+/// tables and of the meta table: BigUInt k -> k; BIGINT index keys: k -> k + 2^63). A page with an undecodable key gets none.
+fn key_tokens(d: &FileDump) -> BTreeMap<u64, String> {
+    use axmosdb::verif::btree::VKey;
+    let mut out = BTreeMap::new();
+    for p in &d.pages {
+        if let PageBody::Btree(b) = &p.body {
+            if !b.well_formed || b.self_id != p.id {
+                continue;
+            }
+            let ks: Option<Vec<String>> = b
+                .cells
+                .iter()
+                .map(|c| match &c.key {
+                    Some(VKey::U64(k)) => Some(k.to_string()),
+                    Some(VKey::I64(k)) => Some(((*k as i128) + (1i128 << 63)).to_string()),
+                    _ => None,
+                })
+                .collect();
+            if let Some(ks) = ks {
+                out.insert(p.id, format!("K{}:{}", p.id, ks.join(",")));
+            }
+        }
+    }
+    out
+}
+
+struct Observer {
+    prev: BTreeMap<u64, String>,
+    prev_keys: BTreeMap<u64, String>,
+    cache: Option<DumpCache>,
+    /// index name -> indexed column (from the CREATE INDEX statements of the case)
+    index_cols: BTreeMap<String, String>,
+}
+
+impl Observer {
+    fn step(&mut self, db: &Database) -> String {
+        let roots = match guard(|| database_roots(db)) {
+            Ok(r) => r,
+            Err(e) => return format!("D=Ecatalog:{}", e.split(':').next().unwrap_or("?")),
+        };
+        // Every physical row of the meta table owns the tree it names, whatever its visibility: DROP only marks the row deleted
+        // and VACUUM releases the tree when it removes the row (mark `c`: the row's creator was rolled back, `d`: its deleter
+        // was rolled back — informational).
+        let mut counted: Vec<(u64, &'static str)> = Vec::new();
+        for r in &roots {
+            let mark = if r.xmax_aborted {
+                "d"
+            } else if r.xmin_aborted {
+                "c"
+            } else {
+                ""
+            };
+            counted.push((r.root, mark));
+        }
+        // key kind per tree: tables and the meta table are keyed by a BigUInt row id, the meta index by name, an index by its column
+        let kind_of = |root: u64| -> KeyKind {
+            match roots.iter().find(|r| r.root == root) {
+                Some(r) if r.name == "meta_index" => KeyKind::Text,
+                Some(r) if r.is_index => match self.index_cols.get(&r.name).map(|s| s.as_str()) {
+                    Some("k") | Some("id") => KeyKind::I64,
+                    _ => KeyKind::Text,
+                },
+                _ => KeyKind::U64,
+            }
+        };
+        let rk: Vec<(u64, KeyKind)> = counted.iter().map(|r| (r.0, kind_of(r.0))).collect();
+        let numeric: Vec<u64> = rk.iter().filter(|r| r.1 != KeyKind::Text).map(|r| r.0).collect();
+        let mut cache = self.cache.take();
+        let pager = db.pager().clone();
+        let d = match guard(|| Ok(dump_file_cached(&pager, &rk, &mut cache))) {
+            Ok(d) => d,
+            Err(e) => return format!("D=Edump:{}", e),
+        };
+        self.cache = cache;
+        let toks = page_tokens(&d);
+        let mut s = format!(
+            "T={} F={}:{} R={}",
+            d.total_pages,
+            id0(d.first_free),
+            id0(d.last_free),
+            counted.iter().map(|x| format!("{}{}", x.0, x.1)).collect::<Vec<_>>().join(",")
+        );
+        // dividers (cells of interior pages) that carry an overflow pointer: the precondition of KF-C11-divider-damage
+        let ndiv: usize = d
+            .pages
+            .iter()
+            .map(|p| match &p.body {
+                PageBody::Btree(b) if b.right_child.is_some() => b.cells.iter().filter(|c| c.is_overflow).count(),
+                _ => 0,
+            })
+            .sum();
+        if ndiv > 0 {
+            s.push_str(&format!(" X={}", ndiv));
+        }
+        if !numeric.is_empty() {
+            s.push_str(&format!(" N={}", numeric.iter().map(|x| x.to_string()).collect::<Vec<_>>().join(",")));
+        }
+        for (id, tok) in &toks {
+            if self.prev.get(id) != Some(tok) {
+                s.push(' ');
+                s.push_str(tok);
+            }
+        }
+        let ktoks = key_tokens(&d);
+        for (id, tok) in &ktoks {
+            if self.prev_keys.get(id) != Some(tok) {
+                s.push(' ');
+                s.push_str(tok);
+            }
+        }
+        // a page that lost its key token (no longer a B-tree page with numeric keys)
+        for id in self.prev_keys.keys() {
+            if !ktoks.contains_key(id) {
+                s.push_str(&format!(" K{}:!", id));
+            }
+        }
+        self.prev_keys = ktoks;
+        // pages that disappeared cannot happen (total_pages never shrinks); keep the table anyway
+        self.prev = toks;
+        s
+    }
+}
+
+fn exec_sql(line: &str) -> String {
+    let Some((head, body)) = line.split_once(" | ") else { return "bad-op".into() };
+    let Some((ps, cache)) = parse_params(head, "sql") else { return "bad-op".into() };
+    let mut ops = Vec::new();
+    for part in body.split(" ; ") {
+        match parse_qop(part) {
+            Some(o) => ops.push(o),
+            None => return "bad-op".into(),
+        }
+    }
+    if ops.is_empty() || ops.len() > 3000 {
+        return "bad-op".into();
+    }
+    let scratch = Scratch::new();
+    let path = scratch.0.join("test.db");
+    let cfg = DBConfig::builder().page_size(ps).cache_size(cache).pool_size(2).build();
+    let mut db = match Database::create(&path, cfg) {
+        Ok(db) => Some(db),
+        Err(_) => return "create-failed".into(),
+    };
+    let mut sessions: BTreeMap<u32, axmosdb::tcp::session::Session> = BTreeMap::new();
+    let mut obs = Observer { prev: BTreeMap::new(), prev_keys: BTreeMap::new(), cache: None, index_cols: BTreeMap::new() };
+    for op in &ops {
+        if let QOp::Auto(Stmt::CreateIndex(i, _, c)) | QOp::SStmt(_, Stmt::CreateIndex(i, _, c)) = op {
+            obs.index_cols.insert(i.clone(), c.clone());
+        }
+    }
+    let mut parts = Vec::new();
+    install_worker_hook();
+    let _ = take_worker_panic();
+    let debug = std::env::var("AXH_DEBUG").is_ok();
+    for (opi, op) in ops.iter().enumerate() {
+        if debug {
+            eprintln!("op{} {}", opi, show_qop(op));
+        }
+        let r: Result<(), String> = guard(|| {
+            let dbr = db.as_ref().ok_or_else(|| "closed".to_string())?;
+            match op {
+                QOp::Auto(s) => dbr.execute(&s.sql()).map(|_| ()).map_err(|e| {
+                    if debug {
+                        eprintln!("  error: {}", e);
+                    }
+                    db_err_class(&e).to_string()
+                }),
+                QOp::SBegin(k) => match dbr.session() {
+                    Ok(s) => {
+                        sessions.insert(*k, s);
+                        Ok(())
+                    }
+                    Err(e) => Err(db_err_class(&e).to_string()),
+                },
+                QOp::SStmt(k, s) => match sessions.get_mut(k) {
+                    Some(sess) => sess.execute(&s.sql()).map(|_| ()).map_err(|e| {
+                        if debug {
+                            eprintln!("  error: {}", e);
+                        }
+                        "query".to_string()
+                    }),
+                    None => Err("nosession".into()),
+                },
+                QOp::SCommit(k) => match sessions.remove(k) {
+                    Some(mut sess) => sess.commit_transaction().map_err(|_| "query".to_string()),
+                    None => Err("nosession".into()),
+                },
+                QOp::SRollback(k) => match sessions.remove(k) {
+                    Some(mut sess) => sess.abort_transaction().map_err(|_| "query".to_string()),
+                    None => Err("nosession".into()),
+                },
+                QOp::Vacuum => dbr.vacuum().map(|_| ()).map_err(|e| db_err_class(&e).to_string()),
+                QOp::Flush => dbr.flush().map_err(|e| db_err_class(&e).to_string()),
+                QOp::Reopen => Ok(()),
+            }
+        });
+        let mut r = r;
+        if *op == QOp::Reopen && r.is_ok() {
+            sessions.clear();
+            db = None; // clean close: Drop flushes
+            obs.cache = None;
+            r = guard(|| match Database::open(&path, cfg) {
+                Ok(d) => {
+                    db = Some(d);
+                    Ok(())
+                }
+                Err(e) => Err(db_err_class(&e).to_string()),
+            });
+        }
+        let wp = take_worker_panic();
+        let rs = match (&r, &wp) {
+            (Err(e), _) if e.starts_with("PANIC@") => format!("P{}", &e[6..]),
+            (_, Some(loc)) => format!("P{}", loc),
+            (Ok(()), None) => "ok".to_string(),
+            (Err(e), None) => format!("E{}", e),
+        };
+        let Some(dbr) = db.as_ref() else {
+            parts.push(format!("r={} D=Eclosed", rs));
+            break;
+        };
+        parts.push(format!("r={} {}", rs, obs.step(dbr)));
+        let _ = take_worker_panic(); // the dump's own decoding attempts may panic (caught): not the database's
+        if rs.starts_with('P') {
+            break;
+        }
+    }
+    sessions.clear();
+    drop(db);
+    format!("obs {}", parts.join(" ; "))
+}
+
+// ------------------------------------------------------------------------------------------------ generators
+
+/// the generator's own idea of the allocator, used only to choose meaningful page ids
+struct Sim {
+    total: u64,
+    free: VecDeque<u64>,
+    used: Vec<(u64, bool)>,
+}
+
+fn gen_seq(rng: &mut Rng, n_ops: usize, flavour: &str) -> (String, Vec<String>) {
+    let ps = *rng.pick(&[4096usize, 8192]);
+    let cache = *rng.pick(&[64usize, 10000]);
+    let mut sim = Sim { total: 1, free: VecDeque::new(), used: Vec::new() };
+    let mut ops: Vec<SOp> = Vec::new();
+    let mut tags: Vec<String> = vec!["seq".into(), flavour.to_string()];
+    let mut tag = |t: &str, tags: &mut Vec<String>| {
+        if !tags.iter().any(|x| x == t) {
+            tags.push(t.to_string());
+        }
+    };
+    // phase structure: grow, then churn
+    for i in 0..n_ops {
+        let want_alloc = if i < n_ops / 4 { 80 } else { 45 };
+        let roll = rng.below(100);
+        if roll < want_alloc || sim.used.is_empty() {
+            let k = rng.chance(1, 3);
+            ops.push(SOp::Alloc(k));
+            let p = match sim.free.pop_front() {
+                Some(p) => {
+                    tag("reuse", &mut tags);
+                    p
+                }
+                None => {
+                    tag("grow", &mut tags);
+                    sim.total += 1;
+                    sim.total - 1
+                }
+            };
+            sim.used.push((p, k));
+        } else if roll < want_alloc + 38 {
+            let i = rng.below(sim.used.len() as u64) as usize;
+            let (p, k) = sim.used.swap_remove(i);
+            // the type parameter normally matches the page; sometimes not (irrelevant while the page is cached)
+            let kk = if rng.chance(1, 10) { !k } else { k };
+            ops.push(SOp::Dealloc(p, kk));
+            sim.free.push_back(p);
+            tag("dealloc", &mut tags);
+        } else if roll < want_alloc + 43 {
+            let ov: Vec<u64> = sim.used.iter().filter(|x| x.1).map(|x| x.0).collect();
+            if ov.len() >= 2 && flavour != "plain" {
+                let p = *rng.pick(&ov);
+                let q = if rng.chance(1, 4) { 0 } else { *rng.pick(&ov) };
+                ops.push(SOp::Link(p, q));
+                tag("link", &mut tags);
+            } else {
+                ops.push(SOp::Alloc(true));
+                let p = sim.free.pop_front().unwrap_or_else(|| {
+                    sim.total += 1;
+                    sim.total - 1
+                });
+                sim.used.push((p, true));
+            }
+        } else if roll < want_alloc + 46 {
+            ops.push(SOp::Flush);
+            tag("flush", &mut tags);
+        } else if roll < want_alloc + 48 {
+            ops.push(SOp::Reopen);
+            tag("reopen", &mut tags);
+        } else if roll < want_alloc + 50 {
+            ops.push(SOp::Dealloc(0, rng.chance(1, 2)));
+            tag("d0", &mut tags);
+        } else if flavour == "dfree" && !sim.free.is_empty() {
+            // contract violation: give back a page that is already free
+            let i = rng.below(sim.free.len() as u64) as usize;
+            let p = sim.free[i];
+            ops.push(SOp::Dealloc(p, true));
+            tag("double-free", &mut tags);
+        } else {
+            ops.push(SOp::Alloc(false));
+            let p = sim.free.pop_front().unwrap_or_else(|| {
+                sim.total += 1;
+                sim.total - 1
+            });
+            sim.used.push((p, false));
+        }
+    }
+    if ops.len() >= 10 {
+        tags.push("nt".into());
+    }
+    (format!("seq {} {} | {}", ps, cache, ops.iter().map(show_sop).collect::<Vec<_>>().join(" ; ")), tags)
+}
+
+#[derive(Clone)]
+struct TableSim {
+    name: String,
+    /// rows deleted since the last VACUUM (their cells are still in the leaf)
+    dead: usize,
+    /// (id, updates since the last VACUUM)
+    rows: Vec<(u64, u32)>,
+    next_id: u64,
+    indexes: Vec<String>,
+}
+
+/// What a family of SQL histories may contain. Exactly one *region* per history:
+///   clean     rows of at most 64 bytes, at most 2 tables and 1 index alive, VACUUM at least every ~14 row operations (the catalog
+///             row of a table gains one version per INSERT; un-vacuumed it outgrows a third of a page after ~30 inserts and gets an
+///             overflow chain of its own), a row is updated at most twice between two VACUUMs. Family `ovf`: rows up to 6 pages in
+///             tables that hold at most 2 cells (overflow chains, never a divider). Family `ddlrb`: CREATE / DROP inside sessions
+///             that are rolled back. No known finding applies: any failure is a violation.
+///   bigcell   rows from 10 bytes to several pages (overflow chains in user tables; KF-C11-divider-shares-chain and its damage)
+///   bigcat    small rows, but many relations / long stretches without VACUUM: the *catalog* rows overflow (same findings)
+struct Plan {
+    region: &'static str,
+    family: &'static str,
+    big_rows: bool,
+    max_tables: usize,
+    max_indexes: usize,
+    vacuum_every: Option<usize>,
+    burst: usize,
+    sessions: bool,
+    ddl_in_sessions: bool,
+    rollback_num: u64,
+    ddl: bool,
+    reopen: bool,
+    churn: bool,
+    /// at most this many cells (live + dead rows) per table: with 2, a table never leaves its root page, so large rows get
+    /// overflow chains but no divider ever exists (family `ovf`)
+    max_cells: Option<usize>,
+}
+
+fn plan_for(region: &'static str, family: &'static str) -> Plan {
+    let mut p = Plan {
+        region,
+        family,
+        big_rows: false,
+        max_tables: 2,
+        max_indexes: 1,
+        vacuum_every: Some(8),
+        burst: 6,
+        sessions: false,
+        ddl_in_sessions: false,
+        rollback_num: 1,
+        ddl: false,
+        reopen: false,
+        churn: false,
+        max_cells: None,
+    };
+    match family {
+        "plain" => {}
+        "ovf" => {
+            p.big_rows = true;
+            p.max_cells = Some(2);
+            p.max_indexes = 0; // an index keeps entries of dead rows and would split
+            p.vacuum_every = Some(3);
+            p.burst = 2;
+            p.ddl = true;
+            p.reopen = true;
+        }
+        "rollback" => {
+            p.sessions = true;
+            p.rollback_num = 3;
+        }
+        "ddl" => p.ddl = true,
+        "reopen" => p.reopen = true,
+        "churn" => p.churn = true,
+        _ => {
+            p.sessions = true;
+            p.ddl = true;
+            p.reopen = true;
+            p.churn = true;
+        }
+    }
+    if family == "ddlrb" {
+        p.sessions = true;
+        p.ddl_in_sessions = true;
+        p.ddl = true;
+        p.rollback_num = 3;
+    }
+    match region {
+        "bigcell" => {
+            p.big_rows = true;
+            p.max_tables = 3;
+            p.max_indexes = 2;
+            p.vacuum_every = Some(40);
+            p.burst = 20;
+        }
+        "bigcat" => {
+            p.max_tables = 5;
+            p.max_indexes = 4;
+            p.vacuum_every = None;
+            p.burst = 25;
+            p.ddl = true;
+        }
+        _ => {}
+    }
+    p
+}
+
+fn pick_len(rng: &mut Rng, ps: usize, big: bool) -> usize {
+    if !big {
+        return *rng.pick(&[10usize, 24, 40, 64]);
+    }
+    match rng.below(10) {
+        0..=2 => rng.range(10, 200) as usize,
+        3..=4 => rng.range(200, (ps / 3) as i64) as usize,
+        5..=6 => rng.range((ps / 3) as i64, ps as i64) as usize,
+        7..=8 => rng.range(ps as i64, 3 * ps as i64) as usize,
+        _ => rng.range(3 * ps as i64, 6 * ps as i64) as usize,
+    }
+}
+
+fn gen_sql(rng: &mut Rng, n_ops: usize, plan: &Plan) -> (String, Vec<String>) {
+    let ps = *rng.pick(&[4096usize, 8192]);
+    let cache = *rng.pick(&[64usize, 10000]);
+    let mut tags: Vec<String> = vec!["sql".into(), plan.region.to_string(), format!("f-{}", plan.family)];
+    tags.push(format!("ps{}", ps));
+    tags.push(format!("cache{}", cache));
+    fn tag(t: &str, tags: &mut Vec<String>) {
+        if !tags.iter().any(|x| x == t) {
+            tags.push(t.to_string());
+        }
+    }
+    let mut ops: Vec<QOp> = Vec::new();
+    let mut tables: Vec<TableSim> = Vec::new();
+    let mut tcount = 0u32;
+    let mut icount = 0u32;
+    let mut open: Option<(u32, Vec<TableSim>, usize)> = None; // session id, tables at BEGIN, statements so far
+    let mut sess_n = 0u32;
+    let mut since_vac = 0usize;
+    fn push(ops: &mut Vec<QOp>, open: &mut Option<(u32, Vec<TableSim>, usize)>, s: Stmt) {
+        match open {
+            Some((k, _, n)) => {
+                *n += 1;
+                ops.push(QOp::SStmt(*k, s))
+            }
+            None => ops.push(QOp::Auto(s)),
+        }
+    }
+    tcount += 1;
+    tables.push(TableSim { name: format!("t{}", tcount), dead: 0, rows: Vec::new(), next_id: 1, indexes: Vec::new() });
+    ops.push(QOp::Auto(Stmt::CreateTable(format!("t{}", tcount))));
+    while ops.len() < n_ops {
+        // VACUUM keeps the catalog rows (one version per INSERT) and the updated rows small
+        if let (Some(every), None) = (plan.vacuum_every, &open) {
+            if since_vac >= every {
+                ops.push(QOp::Vacuum);
+                tag("vacuum", &mut tags);
+                since_vac = 0;
+                for t in tables.iter_mut() {
+                    t.dead = 0;
+                    for r in t.rows.iter_mut() {
+                        r.1 = 0;
+                    }
+                }
+                continue;
+            }
+        }
+        let roll = rng.below(100);
+        if plan.sessions && open.is_none() && roll < 8 {
+            sess_n = (sess_n % 9) + 1;
+            open = Some((sess_n, tables.clone(), 0));
+            ops.push(QOp::SBegin(sess_n));
+            tag("session", &mut tags);
+            continue;
+        }
+        if let Some((k, saved, n)) = &open {
+            if roll < 18 || *n >= 6 {
+                if rng.below(4) < plan.rollback_num {
+                    ops.push(QOp::SRollback(*k));
+                    tag("rollback", &mut tags);
+                    tables = saved.clone();
+                } else {
+                    ops.push(QOp::SCommit(*k));
+                    tag("commit", &mut tags);
+                }
+                open = None;
+                continue;
+            }
+        }
+        let ddl_ok = plan.ddl && (open.is_none() || plan.ddl_in_sessions);
+        let n_idx: usize = tables.iter().map(|t| t.indexes.len()).sum();
+        if tables.is_empty() || (ddl_ok && (18..22).contains(&roll) && tables.len() < plan.max_tables) {
+            tcount += 1;
+            let name = format!("t{}", tcount);
+            tables.push(TableSim { name: name.clone(), dead: 0, rows: Vec::new(), next_id: 1, indexes: Vec::new() });
+            if open.is_some() {
+                tag("ddl-in-session", &mut tags);
+            }
+            push(&mut ops, &mut open, Stmt::CreateTable(name));
+            tag("create", &mut tags);
+            continue;
+        }
+        let ti = rng.below(tables.len() as u64) as usize;
+        if ddl_ok && (22..26).contains(&roll) {
+            // DROP TABLE; CASCADE when it has indexes (a plain DROP TABLE leaves them in the catalog; DROP INDEX does not parse)
+            let t = tables.swap_remove(ti);
+            if open.is_some() {
+                tag("ddl-in-session", &mut tags);
+            }
+            if t.indexes.is_empty() {
+                push(&mut ops, &mut open, Stmt::DropTable(t.name));
+            } else if plan.region == "bigcat" && rng.chance(1, 3) {
+                push(&mut ops, &mut open, Stmt::DropTable(t.name));
+                tag("orphan-index", &mut tags);
+            } else {
+                push(&mut ops, &mut open, Stmt::DropTableCascade(t.name));
+                tag("drop-cascade", &mut tags);
+            }
+            tag("drop", &mut tags);
+            continue;
+        }
+        if ddl_ok && (26..31).contains(&roll) && n_idx < plan.max_indexes && tables[ti].indexes.is_empty() {
+            icount += 1;
+            let name = format!("i{}", icount);
+            let col = if plan.big_rows && rng.chance(1, 3) { "v" } else { "k" };
+            tables[ti].indexes.push(name.clone());
+            if open.is_some() {
+                tag("ddl-in-session", &mut tags);
+            }
+            push(&mut ops, &mut open, Stmt::CreateIndex(name, tables[ti].name.clone(), col.into()));
+            tag("index", &mut tags);
+            if col == "v" {
+                tag("index-v", &mut tags);
+            }
+            continue;
+        }
+        if plan.reopen && (33..36).contains(&roll) && open.is_none() {
+            ops.push(QOp::Reopen);
+            tag("reopen", &mut tags);
+            continue;
+        }
+        if (36..38).contains(&roll) && open.is_none() {
+            ops.push(QOp::Flush);
+            tag("flush", &mut tags);
+            continue;
+        }
+        // row operations
+        let t = &mut tables[ti];
+        let d = rng.below(100);
+        let full = plan.max_cells.map(|m| t.rows.len() + t.dead >= m).unwrap_or(false);
+        if full && t.rows.is_empty() {
+            // only dead cells left: VACUUM makes room
+            if open.is_none() {
+                since_vac = usize::MAX / 2;
+            }
+            continue;
+        }
+        let want_delete = (plan.churn && t.rows.len() > 40) || (full && d < 50);
+        let d = if full && d < 55 { 60 } else { d };
+        if t.rows.is_empty() || (d < 55 && !want_delete) {
+            let room = plan.max_cells.map(|m| m - (t.rows.len() + t.dead)).unwrap_or(usize::MAX);
+            let burst = if rng.chance(1, 3) { rng.range(2, plan.burst as i64) as usize } else { 1 }.min(room);
+            for _ in 0..burst {
+                let id = t.next_id;
+                t.next_id += 1;
+                t.rows.push((id, 0));
+                let len = pick_len(rng, ps, plan.big_rows);
+                if len > ps / 4 {
+                    tag("overflow-row", &mut tags);
+                }
+                since_vac += 1;
+                push(&mut ops, &mut open, Stmt::Insert(t.name.clone(), id, len));
+            }
+            tag("insert", &mut tags);
+        } else if d < 75 && !want_delete {
+            // a row is updated at most twice between two VACUUMs unless rows may be large anyway
+            let cands: Vec<usize> =
+                (0..t.rows.len()).filter(|i| plan.big_rows || plan.vacuum_every.is_none() || t.rows[*i].1 < 2).collect();
+            if cands.is_empty() {
+                continue;
+            }
+            let i = *rng.pick(&cands);
+            t.rows[i].1 += 1;
+            let id = t.rows[i].0;
+            let len = pick_len(rng, ps, plan.big_rows);
+            since_vac += 1;
+            push(&mut ops, &mut open, Stmt::Update(t.name.clone(), id, len));
+            tag("update", &mut tags);
+        } else if d < 90 && !want_delete {
+            let i = rng.below(t.rows.len() as u64) as usize;
+            let id = t.rows.swap_remove(i).0;
+            t.dead += 1;
+            since_vac += 1;
+            push(&mut ops, &mut open, Stmt::Delete(t.name.clone(), id));
+            tag("delete", &mut tags);
+        } else {
+            let lo = rng.pick(&t.rows).0;
+            let hi = lo + if want_delete { rng.range(20, 60) } else { rng.range(2, 12) } as u64;
+            let before = t.rows.len();
+            t.rows.retain(|x| x.0 < lo || x.0 >= hi);
+            t.dead += before - t.rows.len();
+            since_vac += 2;
+            push(&mut ops, &mut open, Stmt::DeleteRange(t.name.clone(), lo, hi));
+            tag("delete-range", &mut tags);
+        }
+    }
+    if let Some((k, _, _)) = open {
+        ops.push(if rng.below(4) < plan.rollback_num { QOp::SRollback(k) } else { QOp::SCommit(k) });
+    }
+    // every history ends with VACUUM (dead rows are removed physically: their pages must come back) and a reopen
+    ops.push(QOp::Vacuum);
+    ops.push(QOp::Reopen);
+    if ops.len() >= 10 {
+        tags.push("nt".into());
+    }
+    (format!("sql {} {} | {}", ps, cache, ops.iter().map(show_qop).collect::<Vec<_>>().join(" ; ")), tags)
+}
+
+impl Engine for PagerEngine {
+    fn timeout_ms(&self) -> u64 {
+        60_000
+    }
+
+    fn exec(&mut self, line: &str) -> String {
+        let _quiet = QuietStdout::new();
+        if line.starts_with("seq ") {
+            exec_seq(line)
+        } else if line.starts_with("sql ") {
+            exec_sql(line)
+        } else if let Some(ps) = line.strip_prefix("iter ") {
+            // regression check of KF-C11-iterator-repeats-error: the iterator must end after it has reported an error
+            match ps.parse::<usize>() {
+                Ok(ps) if ps == 4096 || ps == 8192 => {
+                    let scratch = Scratch::new();
+                    match guard(|| iterator_after_error(&scratch.0, ps)) {
+                        Ok(s) => format!("obs {}", s),
+                        Err(e) => format!("obs E{}", e),
+                    }
+                }
+                _ => "bad-op".into(),
+            }
+        } else {
+            "bad-op".into()
+        }
+    }
+
+    fn gen_cases(&self, rng: &mut Rng, tier: Tier) -> Vec<Case> {
+        let mut out = Vec::new();
+        let (n_seq, n_sql, scale) = if tier == Tier::Quick { (100, 77, 1) } else { (1000, 770, 2) };
+        let mut r1 = rng.fork("seq");
+        for i in 0..n_seq {
+            let flavour = match i % 10 {
+                0..=5 => "plain",
+                6..=7 => "links",
+                _ => "dfree",
+            };
+            let n_ops = match i % 4 {
+                0 => r1.range(3, 12),
+                1 | 2 => r1.range(20, 80),
+                _ => r1.range(100, 300),
+            } as usize;
+            let (line, tags) = gen_seq(&mut r1, n_ops, flavour);
+            let t: Vec<&str> = tags.iter().map(|s| s.as_str()).collect();
+            out.push(Case::new(line, &t));
+        }
+        out.push(Case::new("iter 4096".into(), &["iter", "nt"]));
+        out.push(Case::new("iter 8192".into(), &["iter", "nt"]));
+        let mut r2 = rng.fork("sql");
+        let families = ["plain", "rollback", "ddl", "reopen", "churn", "mixed", "ovf"];
+        for i in 0..n_sql {
+            // region split: 8 of every 11 histories are clean, then bigcell, bigcat, ddlrb (one region feature each)
+            let region = match i % 11 {
+                8 => "bigcell",
+                9 => "bigcat",
+                _ => "clean",
+            };
+            // family `ovf` (large rows in tables that never split) exists only in the clean region; every 11th history is of
+            // family `ddlrb` (CREATE / DROP inside sessions that are rolled back)
+            let mut family = families[(i / 11 + i % 11) % families.len()];
+            if family == "ovf" && region != "clean" {
+                family = "mixed";
+            }
+            if i % 11 == 10 {
+                family = "ddlrb";
+            }
+            let plan = plan_for(region, family);
+            let n_ops = match i % 3 {
+                0 => r2.range(40, 120),
+                1 => r2.range(150, 350),
+                _ => r2.range(400, 700),
+            } as usize
+                * scale;
+            let (line, tags) = gen_sql(&mut r2, n_ops, &plan);
+            let t: Vec<&str> = tags.iter().map(|s| s.as_str()).collect();
+            out.push(Case::new(line, &t));
+        }
+        out
+    }
 }
